@@ -2,6 +2,7 @@ package bsim
 
 import (
 	"fmt"
+	"path/filepath"
 	"strings"
 
 	"verifsim/choice"
@@ -163,7 +164,7 @@ func layoutWorld(src *choice.Src, w *World, cfg *gen.Cfg, o WOpts, post []postMu
 		}
 		contents[i] = y.Render(perm)
 	}
-	layout := src.Draw("layout", 5)
+	layout := src.Draw("layout", 6)
 	names := []string{"10_base.yaml", "20_services.yaml", "30_extra.yaml", "40_local.yaml"}
 	switch layout {
 	case 0: // one directory, one glob
@@ -195,6 +196,11 @@ func layoutWorld(src *choice.Src, w *World, cfg *gen.Cfg, o WOpts, post []postMu
 			w.Files = append(w.Files, InFile{Path: d + "/" + names[i], Content: c})
 		}
 		w.Patterns = []string{"c?nf/[0-9]*_*.yaml", "nomatch/*.yaml"}
+	case 5: // a directory whose name looks like a shell variable: it is a name, nothing to expand
+		for i, c := range contents {
+			w.Files = append(w.Files, InFile{Path: "$stage/${env}_" + names[i], Content: c})
+		}
+		w.Patterns = []string{"$stage/*.yaml"}
 	case 4: // uncleaned spellings and a question-mark glob
 		for i, c := range contents {
 			w.Files = append(w.Files, InFile{Path: "etc/" + names[i], Content: c})
@@ -224,7 +230,19 @@ func layoutWorld(src *choice.Src, w *World, cfg *gen.Cfg, o WOpts, post []postMu
 		}
 		return "./" + strings.Replace(p, "/", "//", 1)
 	}
-	switch src.Draw("layoutfaultk", 9) {
+	switch src.Draw("layoutfaultk", 11) {
+	case 9: // a dangling symbolic link among the matches of a pattern that also matches good files
+		w.Files = append(w.Files, InFile{Path: filepath.Dir(first) + "/05_dangling.yaml", Kind: "dangling-link"})
+		if !strings.ContainsAny(strings.Join(w.Patterns, " "), "*?[") {
+			w.Patterns = append(w.Patterns, filepath.Dir(first)+"/05_dangling.yaml")
+		}
+		w.Class = "env:input-dangling-link"
+	case 10: // a directory among the matches of a glob
+		w.Dirs = append(w.Dirs, filepath.Dir(first)+"/07_subdir.yaml")
+		if !strings.ContainsAny(strings.Join(w.Patterns, " "), "*?[") {
+			w.Patterns = append(w.Patterns, filepath.Dir(first)+"/07_subdir.yaml")
+		}
+		w.Class = "env:input-is-dir"
 	case 0: // missing input as the only pattern
 		w.Patterns = []string{"does/not/exist.yaml"}
 		w.Class = "env:no-input"
